@@ -45,15 +45,14 @@ Vectors(h) ==
   UNION {{[base EXCEPT ![n] = v] : v \in Boundary(fs[n])} : base \in {ZeroBase(h), MaxBase(h)}, n \in Free(h)}
   \cup {RandRec(h, b) : b \in 1..In.nrand}
 
-VectorsOK(h) == \A v \in Vectors(h) : RecOK(Layouts[h], v)
-
 VecOut(h) == SetToSeq({[rec |-> v, bytes |-> Enc(Layouts[h], v)] : v \in Vectors(h)})
 
-AllVec == [h \in DOMAIN Layouts |-> VecOut(h)]           \* constant: evaluated once
+AllVec == [h \in DOMAIN Layouts |-> VecOut(h)]
 
-RoundTrip == \A h \in DOMAIN Layouts : \A k \in DOMAIN AllVec[h] :
-               /\ Len(AllVec[h][k].bytes) = Layouts[h].size
-               /\ Dec(Layouts[h], AllVec[h][k].bytes) = AllVec[h][k].rec
+RoundTrip(av) == \A h \in DOMAIN Layouts : \A k \in DOMAIN av[h] :
+                   /\ RecOK(Layouts[h], av[h][k].rec)
+                   /\ Len(av[h][k].bytes) = Layouts[h].size
+                   /\ Dec(Layouts[h], av[h][k].bytes) = av[h][k].rec
 
 -----------------------------------------------------------------------------
 SumOut == [k \in DOMAIN In.sums |-> Sum1071(In.sums[k].buf, In.sums[k].init)]
@@ -64,7 +63,11 @@ PktCksum(p) ==
   CASE p.kind = "ip4" -> CksumField(p.hdr, 10, 0)
     [] p.kind = "tcp" -> TransportCksum(p.src, p.dst, 6, p.hdr, 16, p.payload)
     [] p.kind = "udp" -> TransportCksum(p.src, p.dst, 17, p.hdr, 6, p.payload)
-PktOut == [k \in DOMAIN In.pkts |-> PktCksum(In.pkts[k])]
+PktOut == [k \in DOMAIN In.pkts |->
+             LET p == In.pkts[k] IN
+             [cksum  |-> PktCksum(p),
+              pseudo |-> IF p.kind = "ip4" THEN 0       \* what PseudoHeaderChecksum returns: no length yet
+                         ELSE Sum1071(p.src \o p.dst \o <<0, IF p.kind = "tcp" THEN 6 ELSE 17>>, 0)]]
 
 (* "a packet carrying the complemented sum verifies" at model level *)
 PktVerifies(p) ==
@@ -96,23 +99,23 @@ DnsOut == [k \in DOMAIN In.dnsq |->
              [labels |-> In.dnsq[k].labels, qtype |-> In.dnsq[k].qtype, qclass |-> In.dnsq[k].qclass,
               bytes |-> EncQuestion(In.dnsq[k].labels, In.dnsq[k].qtype, In.dnsq[k].qclass)]]
 
-Export == [layouts |-> Layouts, fixed |-> Fixed, nummax |-> NumMax,
-        vectors |-> AllVec,
-        dnsq |-> DnsOut,
-        inst_small |-> InstTable(InstSmall), inst_big |-> InstTable(InstBig),
-        sums |-> SumOut, pkts |-> PktOut, grid |-> GridOut]
+Export(av) == [layouts |-> Layouts, fixed |-> Fixed, nummax |-> NumMax,
+               vectors |-> av,
+               dnsq |-> DnsOut,
+               inst_small |-> InstTable(InstSmall), inst_big |-> InstTable(InstBig),
+               sums |-> SumOut, pkts |-> PktOut, grid |-> GridOut]
 
 ASSUME LayoutsOK
-ASSUME \A h \in DOMAIN Layouts : VectorsOK(h)
-ASSUME RoundTrip
-ASSUME \A h \in DOMAIN Layouts : \A v \in {ZeroBase(h), MaxBase(h)} \cup {RandRec(h, b) : b \in 1..In.nrand} :
+ASSUME \A h \in DOMAIN Layouts : \A v \in {ZeroBase(h), MaxBase(h)} \cup {RandRec(h, b) : b \in 1..4} :
          Enc(Layouts[h], v) = EncDef(Layouts[h], v)
 ASSUME CombineAlgebra
 ASSUME SumAlgebra
 ASSUME \A k \in DOMAIN In.pkts : PktVerifies(In.pkts[k])
-ASSUME JsonSerialize("out.json", Export)
 
-Init == x = 0
-Next == x' = x
+(* The vector table is the (single) state, so that it is computed exactly
+   once; RoundTrip and the export are evaluated on it as an invariant. *)
+Init == x = AllVec
+Next == UNCHANGED x
 Spec == Init /\ [][Next]_x
+Checked == RoundTrip(x) /\ JsonSerialize("out.json", Export(x))
 =============================================================================
